@@ -127,7 +127,7 @@ def stress_plan(variants, thorough):
     for v in variants:
         scale = 1 if v != "sim" else 4          # the mutex-simulated model is slower under contention
         plan += [(v, "ticket", [n, it // scale]), (v, "dectest", [n, it // scale]), (v, "casinc", [n, it // (4 * scale)]),
-                 (v, "mp", [it // scale]), (v, "sb", [(400000 if thorough else 150000) // scale])]
+                 (v, "mp", [it // scale]), (v, "sb", [(1000000 if thorough else 600000) // scale])]
     return plan
 
 
